@@ -56,7 +56,7 @@ def plan(tier, seed):
     gs = plan_graph_shards("A", n_max=4 if tier == "quick" else 5, chunk=16 if tier == "quick" else 64)
     for s in gs:
         shards.append(dict(s, part="seam", bound="seam equivalence " + s["bound"]))
-    return {"shards": shards, "require_nonzero": ["scan:root", "scan:sub", "entry:module", "spelling:parent-relative", "seam"]}
+    return {"shards": shards, "require_nonzero": ["scan:root", "scan:sub", "entry:module", "spelling:parent-relative", "seam", "exclusion-in-other-letter-case"]}
 
 
 def importable(name):
@@ -180,6 +180,19 @@ def check_tree(entries, res, placement):
                              _js(per_entry["path"]), _js(per_entry["module"])))
             if mp_rel == "top":
                 whole = per_entry.get("path")
+                # an exclusion pattern that names an entry in another letter case excludes nothing: the
+                # architecture is the one of the unfiltered scan
+                names = sorted({os.path.basename(r) for r in files} | {os.path.basename(d) for d in dirs if d != "top"})
+                pats = tuple("*" + n.upper() for n in names if n.upper() != n)[:3]
+                if pats and whole:
+                    out = call(lambda: observed(scan(os.path.join(base, "top"), os.path.join(base, "top"), exclusions=pats)))
+                    if res is not None:
+                        res.transitions += 1
+                        res.stats["exclusion-in-other-letter-case"] += 1
+                    if out[0] != "OK" or out[1] != whole:
+                        viol.append(("exclusion-in-other-letter-case-changes-the-architecture",
+                                     {"entries": entries, "placement": placement, "module_path": mp_rel, "entry": "path", "spelling": "qualified"},
+                                     _js(whole), _js(out[1]) if out[0] == "OK" else list(out[:2])))
             elif whole and per_entry.get("path"):
                 sub = per_entry["path"]
                 restricted = {(u, v) for (u, v) in drop_ancestor_edges(whole[1]) if u in sub[0] and v in sub[0]}
